@@ -18,8 +18,10 @@ package c17
 //     can be held open at the same time on each host (a leaked slot blocks one).
 
 import (
+	"bytes"
 	"context"
 	"fmt"
+	"io"
 	"net/http"
 	"os"
 	"runtime"
@@ -36,6 +38,7 @@ import (
 	"github.com/regclient/regclient/scheme/reg"
 	"github.com/regclient/regclient/types/blob"
 	"github.com/regclient/regclient/types/descriptor"
+	"github.com/regclient/regclient/types/manifest"
 	"github.com/regclient/regclient/types/ref"
 	"github.com/regclient/regclient/zz_verif/evid"
 	"github.com/regclient/regclient/zz_verif/rcutil"
@@ -48,18 +51,40 @@ type CopyHost struct {
 	Mirrors []int `json:"mirrors,omitempty"` // indexes of other hosts listed as mirrors
 }
 
-// CopyJob is one BlobCopy. Endpoints: 0..len(Hosts)-1 = registry host, len(Hosts) = the OCI layout.
+// CopyJob is one client call. Endpoints: 0..len(Hosts)-1 = registry host, len(Hosts) = the OCI layout.
+//
+//	Op "" / "copy"   RegClient.BlobCopy Src -> Tgt (AcquireMulti transaction, requests nested in it)
+//
+// every other op is one call against host Src that goes through reghttp's per-request throttle:
+//
+//	put-seek, put-noseek, put-badseek   BlobPut with a known descriptor from a bytes.Reader / a reader without Seek / a reader whose Seek fails
+//	put-stream                          BlobPut without descriptor from a reader without Seek (chunked upload)
+//	get-eof, get-early, get-handoff     BlobGet: read to the end and close / close after a few bytes / hand the reader to another goroutine that closes it
+//	head, mget, mhead, mput, tags, referrers   BlobHead, ManifestGet, ManifestHead, ManifestPut, TagList, ReferrerList
 type CopyJob struct {
-	Src    int `json:"src"`
-	Tgt    int `json:"tgt"`
-	Blob   int `json:"blob"`
-	Cancel int `json:"cancel,omitempty"` // 0 = live context, 1 = cancelled before the call, k>1 = cancelled when the job's (k-1)th request arrives
+	Op     string `json:"op,omitempty"`
+	Src    int    `json:"src"`
+	Tgt    int    `json:"tgt"`
+	Blob   int    `json:"blob"`
+	Cancel int    `json:"cancel,omitempty"` // 0 = live context, 1 = cancelled before the call, k>1 = cancelled when the job's (k-1)th request arrives
+}
+
+// CopyFault is one entry of the model's fault plan: the Nth.. request of class Class ("" = any) to host Host fails.
+type CopyFault struct {
+	Host   int    `json:"host"`
+	Class  string `json:"class,omitempty"`
+	Nth    int    `json:"nth"`
+	Times  int    `json:"times,omitempty"`
+	Kind   string `json:"kind"` // status | reset-before | reset-after | truncate | truncate-clean
+	Status int    `json:"status,omitempty"`
+	At     int    `json:"at,omitempty"`
 }
 
 // CopyCase is the input of engine 3 (Case.Engine == "copy").
 type CopyCase struct {
-	Hosts []CopyHost `json:"hosts"`
-	Jobs  []CopyJob  `json:"jobs"`
+	Hosts  []CopyHost  `json:"hosts"`
+	Jobs   []CopyJob   `json:"jobs"`
+	Faults []CopyFault `json:"faults,omitempty"`
 }
 
 func (c *CopyCase) normalise() {
@@ -69,8 +94,11 @@ func (c *CopyCase) normalise() {
 	if len(c.Hosts) > 3 {
 		c.Hosts = c.Hosts[:3]
 	}
-	if len(c.Jobs) > 8 {
-		c.Jobs = c.Jobs[:8]
+	if len(c.Jobs) > 10 {
+		c.Jobs = c.Jobs[:10]
+	}
+	if len(c.Faults) > 8 {
+		c.Faults = c.Faults[:8]
 	}
 }
 
@@ -95,6 +123,27 @@ var copyBlobs = func() [][]byte {
 	}
 	return out
 }()
+
+// onlyReader hides Seek (a pipe, stdin, a streamed layer).
+type onlyReader struct{ r io.Reader }
+
+func (o onlyReader) Read(p []byte) (int, error) { return o.r.Read(p) }
+
+// badSeeker is a reader whose Seek fails.
+type badSeeker struct{ r io.Reader }
+
+func (o badSeeker) Read(p []byte) (int, error) { return o.r.Read(p) }
+func (o badSeeker) Seek(int64, int) (int64, error) {
+	return 0, fmt.Errorf("seek not possible on this source")
+}
+
+var copyManifest = func() []byte {
+	c, l := copyBlobs[0], copyBlobs[1]
+	return []byte(fmt.Sprintf(`{"schemaVersion":2,"mediaType":"application/vnd.oci.image.manifest.v1+json","config":{"mediaType":"application/vnd.oci.image.config.v1+json","digest":"%s","size":%d},"layers":[{"mediaType":"application/vnd.oci.image.layer.v1.tar+gzip","digest":"%s","size":%d}]}`,
+		rm.Digest("sha256", c), len(c), rm.Digest("sha256", l), len(l)))
+}()
+
+const copyManifestMT = "application/vnd.oci.image.manifest.v1+json"
 
 type copyResult struct {
 	v            *evid.Violation
@@ -168,6 +217,9 @@ func runCopy(cc CopyCase) copyResult {
 			for _, b := range copyBlobs {
 				rp.Blobs[rm.Digest("sha256", b)] = b
 			}
+			md := rm.Digest("sha256", copyManifest)
+			rp.Manifests[md] = &rm.Manifest{MediaType: copyManifestMT, Body: copyManifest}
+			rp.Tags["v1"] = md
 		}
 		ch := config.HostNewName(hostName(i))
 		ch.ReqConcurrent = int64(hc.Conc)
@@ -188,6 +240,13 @@ func runCopy(cc CopyCase) copyResult {
 			event("copy:host-limit-1")
 		}
 		hosts = append(hosts, *ch)
+	}
+	for _, fc := range cc.Faults {
+		f := rm.NewFault(fc.Kind)
+		f.Host = hostName(((fc.Host % nh) + nh) % nh)
+		f.Class, f.Nth, f.Times, f.Status, f.At = fc.Class, fc.Nth, fc.Times, fc.Status, fc.At
+		m.AddFault(f)
+		event("copy:fault-" + fc.Kind)
 	}
 	jobs := make([]*copyJobState, len(cc.Jobs))
 	cancelAt := make([]int32, len(cc.Jobs))
@@ -240,7 +299,8 @@ func runCopy(cc CopyCase) copyResult {
 		return r, false
 	}
 
-	var wg sync.WaitGroup
+	var wg, closers sync.WaitGroup
+	var closersN atomic.Int32
 	start := make(chan struct{})
 	for i, jc := range cc.Jobs {
 		i, jc := i, jc
@@ -251,6 +311,8 @@ func runCopy(cc CopyCase) copyResult {
 			tgt, _ = ref.New(fmt.Sprintf("ocidir://%s/out%d", dir, i%2)) // two jobs may share a target layout
 		}
 		switch {
+		case jc.Op != "" && jc.Op != "copy":
+			event("copy:op-" + jc.Op)
 		case srcLayout && tgtLayout:
 			event("copy:layout-to-layout")
 		case srcLayout:
@@ -264,18 +326,22 @@ func runCopy(cc CopyCase) copyResult {
 		}
 		b := copyBlobs[((jc.Blob%len(copyBlobs))+len(copyBlobs))%len(copyBlobs)]
 		d := descriptor.Descriptor{Digest: digest.Digest(rm.Digest("sha256", b)), Size: int64(len(b))}
+		op := copyOp(rc, jc, i, src, tgt, srcLayout, d, b, &closers, &closersN, event)
 		wg.Add(1)
 		go func() {
 			defer wg.Done()
 			<-start
-			copyJobRun(rc, js, src, tgt, d)
+			copyJobRun(js, op)
 		}()
 	}
 	done := make(chan struct{})
-	go func() { wg.Wait(); close(done) }()
+	go func() { wg.Wait(); closers.Wait(); close(done) }()
 	close(start)
 
 	if v, inc := awaitOrProve(done, "c17.copyJobRun", func() int {
+		if closersN.Load() > 0 {
+			return -1 // somebody is still about to close a reader: not final
+		}
 		n := 0
 		for _, js := range jobs {
 			if !js.fin.Load() {
@@ -283,7 +349,7 @@ func runCopy(cc CopyCase) copyResult {
 			}
 		}
 		return n
-	}, "copy-deadlock-all-parked-in-acquire", "concurrent BlobCopy calls"); v != nil || inc != "" {
+	}, "copy-deadlock-all-parked-in-acquire", "concurrent client calls"); v != nil || inc != "" {
 		res.v, res.inconclusive = v, inc
 		if v != nil {
 			v.Msg += "\n" + describeCopy(cc, jobs)
@@ -307,7 +373,7 @@ func runCopy(cc CopyCase) copyResult {
 		case js.err == nil:
 			event("copy:job-ok")
 		case strings.Contains(js.err.Error(), "cannot acquire new locks during a transaction") || strings.Contains(js.err.Error(), "context already used by another AcquireMulti"):
-			res.v = evid.V("copy-fails-with-throttle-error", "BlobCopy job %d failed with an error of the throttle itself: %v\n%s", js.id, js.err, describeCopy(cc, jobs))
+			res.v = evid.V("copy-fails-with-throttle-error", "job %d failed with an error of the throttle itself: %v\n%s", js.id, js.err, describeCopy(cc, jobs))
 			return res
 		case js.ctx.Err() != nil && cc.Jobs[js.id].Cancel > 0:
 			event("copy:job-cancelled-error")
@@ -316,7 +382,10 @@ func runCopy(cc CopyCase) copyResult {
 		}
 	}
 
-	// ---- drain through the API: `limit` readers held open at once on every throttled host
+	// ---- drain through the API: `limit` readers held open at once on every throttled host (no faults any more)
+	m.Lock()
+	m.Faults = nil
+	m.Unlock()
 	for i, hc := range cc.Hosts {
 		lim := hc.limit()
 		if lim == 0 {
@@ -364,9 +433,97 @@ func runCopy(cc CopyCase) copyResult {
 	return res
 }
 
-func copyJobRun(rc *regclient.RegClient, js *copyJobState, src, tgt ref.Ref, d descriptor.Descriptor) {
-	js.err = rc.BlobCopy(js.ctx, src, tgt, d)
+func copyJobRun(js *copyJobState, op func(ctx context.Context) error) {
+	js.err = op(js.ctx)
 	js.fin.Store(true)
+}
+
+// copyOp builds the client call of a job.
+func copyOp(rc *regclient.RegClient, jc CopyJob, i int, src, tgt ref.Ref, srcLayout bool, d descriptor.Descriptor, b []byte,
+	closers *sync.WaitGroup, closersN *atomic.Int32, event func(string)) func(ctx context.Context) error {
+	if jc.Op == "" || jc.Op == "copy" || srcLayout {
+		return func(ctx context.Context) error { return rc.BlobCopy(ctx, src, tgt, d) }
+	}
+	host := src.Registry
+	put, _ := ref.New(fmt.Sprintf("%s/put%d", host, i))
+	tagged, _ := ref.New(host + "/src:v1")
+	byDigest, _ := ref.New(host + "/src@" + rm.Digest("sha256", copyManifest))
+	switch jc.Op {
+	case "put-seek":
+		return func(ctx context.Context) error { _, err := rc.BlobPut(ctx, put, d, bytes.NewReader(b)); return err }
+	case "put-noseek":
+		return func(ctx context.Context) error {
+			_, err := rc.BlobPut(ctx, put, d, onlyReader{bytes.NewReader(b)})
+			return err
+		}
+	case "put-badseek":
+		return func(ctx context.Context) error {
+			_, err := rc.BlobPut(ctx, put, d, badSeeker{bytes.NewReader(b)})
+			return err
+		}
+	case "put-stream":
+		return func(ctx context.Context) error {
+			_, err := rc.BlobPut(ctx, put, descriptor.Descriptor{}, onlyReader{bytes.NewReader(b)})
+			return err
+		}
+	case "get-eof", "get-early", "get-handoff":
+		return func(ctx context.Context) error {
+			br, err := rc.BlobGet(ctx, src, d)
+			if err != nil {
+				return err
+			}
+			switch jc.Op {
+			case "get-eof":
+				_, err = io.Copy(io.Discard, br)
+			case "get-early":
+				_, _ = br.Read(make([]byte, 3))
+			default:
+				// whoever ends up with the reader closes it: another goroutine, a little later
+				closers.Add(1)
+				closersN.Add(1)
+				go func() {
+					defer closers.Done()
+					defer closersN.Add(-1)
+					for k := 0; k < 20; k++ {
+						runtime.Gosched()
+					}
+					_ = br.Close()
+				}()
+				return nil
+			}
+			if cerr := br.Close(); err == nil {
+				err = cerr
+			}
+			return err
+		}
+	case "head":
+		return func(ctx context.Context) error {
+			br, err := rc.BlobHead(ctx, src, d)
+			if err == nil {
+				_ = br.Close()
+			}
+			return err
+		}
+	case "mget":
+		return func(ctx context.Context) error { _, err := rc.ManifestGet(ctx, tagged); return err }
+	case "mhead":
+		return func(ctx context.Context) error { _, err := rc.ManifestHead(ctx, tagged); return err }
+	case "mput":
+		return func(ctx context.Context) error {
+			mm, err := manifest.New(manifest.WithRaw(copyManifest), manifest.WithDesc(descriptor.Descriptor{MediaType: copyManifestMT}))
+			if err != nil {
+				return err
+			}
+			r, _ := ref.New(fmt.Sprintf("%s/src:t%d", host, i))
+			return rc.ManifestPut(ctx, r, mm)
+		}
+	case "tags":
+		return func(ctx context.Context) error { _, err := rc.TagList(ctx, tagged); return err }
+	case "referrers":
+		return func(ctx context.Context) error { _, err := rc.ReferrerList(ctx, byDigest); return err }
+	}
+	event("copy:op-unknown")
+	return func(ctx context.Context) error { return nil }
 }
 
 func copyDrainRun(ctx context.Context, rc *regclient.RegClient, r ref.Ref, d descriptor.Descriptor, lim int, readers *[]blob.Reader, mu *sync.Mutex, nfin *atomic.Int32, gerr *error) {
@@ -431,7 +588,10 @@ func describeCopy(cc CopyCase, jobs []*copyJobState) string {
 		fmt.Fprintf(&sb, "%s{reqConcurrent=%d mirrors=%v} ", hostName(i), h.Conc, h.Mirrors)
 	}
 	for i, j := range cc.Jobs {
-		fmt.Fprintf(&sb, "\n  job%d %d->%d blob%d cancel=%d finished=%v err=%v", i, j.Src, j.Tgt, j.Blob, j.Cancel, jobs[i].fin.Load(), jobs[i].err)
+		fmt.Fprintf(&sb, "\n  job%d %q %d->%d blob%d cancel=%d finished=%v err=%v", i, j.Op, j.Src, j.Tgt, j.Blob, j.Cancel, jobs[i].fin.Load(), jobs[i].err)
+	}
+	for _, f := range cc.Faults {
+		fmt.Fprintf(&sb, "\n  fault %+v", f)
 	}
 	return sb.String()
 }
